@@ -928,12 +928,18 @@ impl ArchiveMeta {
     }
 
     /// Reads the data from a file.
-    fn read(source: &mut impl io::Read) -> Result<Self, io::Error> {
+    ///
+    /// Returns an error if the data claims there to be no buckets at all,
+    /// since such an archive cannot be used (see `hash_name`).
+    fn read(source: &mut impl io::Read) -> Result<Self, ArchiveError> {
         let mut res = Self::default();
         source.read_exact(&mut res.hash_key)?;
         let mut buf = [0u8; mem::size_of::<usize>()];
         source.read_exact(&mut buf)?;
         res.bucket_count = usize::from_ne_bytes(buf);
+        if res.bucket_count == 0 {
+            return Err(ArchiveError::Corrupt("invalid bucket count"))
+        }
         Ok(res)
     }
 
